@@ -17,7 +17,7 @@
     lenient_values         every column is `C02.Spec.typeColumn` (cell-wise: own value, or the replacement) of the raw
                            column where cut-off cells are the filler text "NaN"
     filler_values          what the filler parses to per unit
-    names_unique           the repaired names are pairwise different (≤ 1000 columns)
+    names_unique           the repaired names are pairwise different (every header; pigeonhole over the candidates)
     strict_fails_iff_defect, strict_names_all   strict read = lenient read + "fail iff something was counted";
                            one message per counted defect, naming it
     isolation              blocks, issues and ending of a stream depend on the fixer's configuration only, not on
@@ -85,9 +85,18 @@ def shortMsgs (n : Nat) : List Row → Nat → List Msg
   | [], _ => []
   | r :: rs, i => (if isShort n r then [Msg.missingRow i] else []) ++ shortMsgs n rs (i + 1)
 
+/-- the text of a cell as the fixer is told it: a string normalised (numeric) or stripped (datetime), any other
+    cell through `str()` -/
+def valueText (u : Str) (c : Cell) : Str :=
+  if u = uOnoff then onoffTxt c else if u = uDatetime then dtTxt c else floatTxt c
+
+/-- the illegal-cell messages of one column: vtype and value text of every illegal cell, top to bottom -/
+def columnMsgs (ext : Ext) (u : Str) (cells : List Cell) : List Msg :=
+  (cells.filter (illegal ext u)).map (fun c => Msg.illegal (vtype u) (valueText u c))
+
 /-- the illegal-cell messages of the parsed columns, column by column -/
 def illegalMsgs (ext : Ext) : List Str → List (List Cell) → List Msg
-  | u :: us, c :: cs => List.replicate (illegalCount ext u c) (Msg.illegal (vtype u)) ++ illegalMsgs ext us cs
+  | u :: us, c :: cs => columnMsgs ext u c ++ illegalMsgs ext us cs
   | _, _ => []
 
 def illegalTotal (ext : Ext) : List Str → List (List Cell) → Nat
@@ -119,35 +128,32 @@ def bump (f : Fixer) (e w : Nat) (m : List Msg) : Fixer :=
 
 @[simp] theorem bump_cfg (f : Fixer) (e w : Nat) (m : List Msg) : (bump f e w m).cfg = f.cfg := rfl
 
-theorem replicate_one_add {α} (k : Nat) (x : α) : List.replicate (1 + k) x = x :: List.replicate k x := by
-  rw [Nat.add_comm]; rfl
-
-theorem illegal_eq_bump (f : Fixer) (vt : String) : f.illegal vt = bump f 0 1 [.illegal vt.toList] := by
+theorem illegal_eq_bump (f : Fixer) (vt : String) (x : Str) : f.illegal vt x = bump f 0 1 [.illegal vt.toList x] := by
   cases f; simp [bump, Fixer.illegal]
 
 /-! ## 3. closed forms of the column parsers -/
 
-theorem parseWith_closed {α : Type} (cellFn : Cell → Option α) (rep : FixCfg → α) (vt : String)
+theorem parseWith_closed {α : Type} (cellFn : Cell → Option α) (rep : FixCfg → α) (vt : String) (txt : Cell → Str)
     (cells : List Cell) (f : Fixer) :
-    parseWith cellFn rep vt cells f =
+    parseWith cellFn rep vt txt cells f =
       (cells.map (fun c => (cellFn c).getD (rep f.cfg)),
        bump f 0 (cells.countP (fun c => (cellFn c).isNone))
-         (List.replicate (cells.countP (fun c => (cellFn c).isNone)) (.illegal vt.toList))) := by
+         ((cells.filter (fun c => (cellFn c).isNone)).map (fun c => Msg.illegal vt.toList (txt c)))) := by
   induction cells generalizing f with
   | nil => simp [parseWith]
   | cons c cs ih =>
     unfold parseWith
     cases hc : cellFn c with
-    | some b => simp [ih f, List.countP_cons, hc]
+    | some b => simp [ih f, List.countP_cons, List.filter_cons, hc]
     | none =>
-      simp only [ih (f.illegal vt), illegal_cfg]
-      simp [illegal_eq_bump, List.countP_cons, hc, replicate_one_add, Nat.add_comm]
+      simp only [ih (f.illegal vt (txt c)), illegal_cfg]
+      simp [illegal_eq_bump, List.countP_cons, List.filter_cons, hc, Nat.add_comm]
 
 theorem parseDatetime_closed (ext : Ext) (cells : List Cell) (f : Fixer) :
     parseDatetime ext cells f =
       (dtValues ext f.cfg.repDt cells).map (fun v =>
         (v, bump f 0 (cells.countP (dtIsFix ext))
-              (List.replicate (cells.countP (dtIsFix ext)) (.illegal "datetime".toList)))) := by
+              ((cells.filter (dtIsFix ext)).map (fun c => Msg.illegal "datetime".toList (dtTxt c))))) := by
   induction cells generalizing f with
   | nil => simp [parseDatetime, dtValues, Except.map]
   | cons c cs ih =>
@@ -155,13 +161,13 @@ theorem parseDatetime_closed (ext : Ext) (cells : List Cell) (f : Fixer) :
     cases hc : dtCell ext c with
     | ok t =>
       simp only [ih f, bind, Except.bind, Except.map]
-      cases dtValues ext f.cfg.repDt cs <;> simp [Except.map, pure, Except.pure, List.countP_cons, dtIsFix, hc]
-    | fix =>
-      simp only [ih (f.illegal "datetime"), illegal_cfg, bind, Except.bind, Except.map]
       cases dtValues ext f.cfg.repDt cs <;>
-        simp [Except.map, pure, Except.pure, List.countP_cons, dtIsFix, hc, illegal_eq_bump, replicate_one_add,
+        simp [Except.map, pure, Except.pure, List.countP_cons, List.filter_cons, dtIsFix, hc]
+    | fix =>
+      simp only [ih (f.illegal "datetime" (dtTxt c)), illegal_cfg, bind, Except.bind, Except.map]
+      cases dtValues ext f.cfg.repDt cs <;>
+        simp [Except.map, pure, Except.pure, List.countP_cons, List.filter_cons, dtIsFix, hc, illegal_eq_bump,
           Nat.add_comm]
-    | raiseValue => rfl
     | raises n => rfl
 
 /-- **a column parser calls the fixer once per illegal cell and for nothing else**: `parse_column` is the
@@ -169,9 +175,9 @@ theorem parseDatetime_closed (ext : Ext) (cells : List Cell) (f : Fixer) :
 theorem parseColumn_closed (ext : Ext) (u : Str) (cells : List Cell) (f : Fixer) :
     parseColumn ext u cells f =
       (C02.Spec.typeColumn ext f.cfg u cells).map (fun v =>
-        (v, bump f 0 (Spec.illegalCount ext u cells)
-              (List.replicate (Spec.illegalCount ext u cells) (.illegal (Spec.vtype u))))) := by
-  unfold parseColumn C02.Spec.typeColumn Spec.illegalCount Spec.illegal Spec.vtype parseOnoff parseFloat
+        (v, bump f 0 (Spec.illegalCount ext u cells) (Spec.columnMsgs ext u cells))) := by
+  unfold parseColumn C02.Spec.typeColumn Spec.illegalCount Spec.columnMsgs Spec.illegal Spec.vtype Spec.valueText
+    parseOnoff parseFloat
   simp only [parseWith_closed, parseDatetime_closed, type_onoff_cell]
   unfold uText uOnoff uDatetime
   generalize "text".toList = T
@@ -179,7 +185,9 @@ theorem parseColumn_closed (ext : Ext) (u : Str) (cells : List Cell) (f : Fixer)
   generalize "datetime".toList = D
   generalize "float".toList = F
   by_cases h1 : u = T
-  · subst h1; simp [Except.map]
+  · subst h1
+    have hff : ∀ l : List Cell, l.filter (fun _ => false) = [] := by intro l; induction l <;> simp_all
+    simp [Except.map, hff]
   · by_cases h2 : u = O
     · subst h2; simp [h1, Except.map]
     · by_cases h3 : u = D
@@ -212,8 +220,8 @@ theorem parseColumns_closed (ext : Ext) (us : List Str) (cols : List Row) (f : F
 def renameFrom (seen : List Str) : List Str → List Str
   | [] => []
   | n :: ns =>
-    (if seen.contains n then freeName n seen 0 1000 else n) ::
-      renameFrom (seen ++ [if seen.contains n then freeName n seen 0 1000 else n]) ns
+    (if seen.contains n then freeName n seen 0 (seen.length + 1) else n) ::
+      renameFrom (seen ++ [if seen.contains n then freeName n seen 0 (seen.length + 1) else n]) ns
 
 /-- the repaired column names of a header -/
 def repairedNames (names0 : List Str) : List Str := renameFrom [] names0
@@ -234,7 +242,7 @@ theorem foldl_dupStep_closed (names : List Str) (seen : List Str) (f : Fixer) (i
     simp only [List.zipIdx_cons, List.foldl_cons, renameFrom, Spec.takenCount, Spec.takenMsgs]
     by_cases hc : seen.contains n = true
     · have hm : n ∈ seen := List.contains_iff_mem.1 hc
-      have hd : dupStep (seen, f) (n, i) = (seen ++ [freeName n seen 0 1000], bump f 1 0 [.dup n i]) := by
+      have hd : dupStep (seen, f) (n, i) = (seen ++ [freeName n seen 0 (seen.length + 1)], bump f 1 0 [.dup n i]) := by
         simp [dupStep, hc, hm, bump]
       rw [hd, ih]
       simp [hc, hm, Nat.add_comm]
@@ -407,7 +415,8 @@ theorem illegalMsgs_length (ext : Ext) (us : List Str) (cols : List (List Cell))
   | cons u us ih =>
     cases cols with
     | nil => simp [Spec.illegalMsgs, Spec.illegalTotal]
-    | cons c cs => simp [Spec.illegalMsgs, Spec.illegalTotal, ih]
+    | cons c cs =>
+      simp [Spec.illegalMsgs, Spec.illegalTotal, Spec.columnMsgs, Spec.illegalCount, List.countP_eq_length_filter, ih]
 
 /-- **one message per counted defect** -/
 theorem msgs_one_per_fix (ext : Ext) (L : Layout) :
@@ -492,7 +501,7 @@ inductive Val
 
 /-- the defect-free parse of one raw cell under unit `u`; `none` = the cell has no value of that type -/
 def legalValue (ext : Ext) (u : Str) (c : Cell) : Option Val :=
-  if u = uText then some (.text c.pyStr)
+  if u = uText then some (.text (textCell c))
   else if u = uOnoff then (C02.Spec.onoff c).map .onoff
   else if u = uDatetime then (match dtCell ext c with | .ok t => some (.dt t) | _ => none)
   else (floatCell ext c).map .num
@@ -546,7 +555,6 @@ theorem dtValues_cellwise (ext : Ext) (rep : Str) (cells : List Cell) (vs : List
         rcases List.mem_cons.1 hd with rfl | hd
         · exact Or.inr hc
         · exact this.2 d hd
-    | raiseValue => simp [hc] at h
     | raises n => simp [hc] at h
 
 /-- **cell-wise typing**: when a column parses, it is as long as its raw column; value `i` is the defect-free
@@ -710,6 +718,44 @@ theorem lenient_cell (ext : Ext) (L : Layout) (f0 : Fixer) (p : Precursor) (f3 :
       · simp [List.getElem?_eq_none (Nat.le_of_not_lt hjp)] at hv
     exact ⟨v, by simp [List.getElem?_append_left hjp, hv], hc⟩
 
+theorem illegalMsgs_names (ext : Ext) (us : List Str) (cols : List (List Cell)) (j : Nat) (u : Str)
+    (cells : List Cell) (c : Cell) (hu : us[j]? = some u) (hc : cols[j]? = some cells) (hm : c ∈ cells)
+    (hi : Spec.illegal ext u c = true) :
+    Msg.illegal (Spec.vtype u) (Spec.valueText u c) ∈ Spec.illegalMsgs ext us cols := by
+  induction us generalizing cols j with
+  | nil => simp at hu
+  | cons u0 us ih =>
+    cases cols with
+    | nil => simp at hc
+    | cons c0 cs =>
+      simp only [Spec.illegalMsgs, List.mem_append]
+      cases j with
+      | zero =>
+        simp at hu hc; subst hu; subst hc
+        left
+        simp only [Spec.columnMsgs, List.mem_map, List.mem_filter]
+        exact ⟨c, ⟨hm, hi⟩, rfl⟩
+      | succ j =>
+        simp at hu hc
+        right
+        exact ih cs j hu hc
+
+/-- **every illegal cell is named**: for every cell of a parsed column that is illegal for its unit — the row's own
+    cell, or the filler where the row was cut short — the messages of the layout contain an entry with the vtype
+    and the text of that cell as the fixer is told it (a string normalised / stripped, another cell via `str()`) -/
+theorem msgs_name_illegal_cells (ext : Ext) (L : Layout) (j i : Nat) (u : Str) (r : Row)
+    (hu : L.units[j]? = some u) (hjn : j < L.names0.length) (hr : L.rows0[i]? = some r)
+    (hi : Spec.illegal ext u (r.getD j Spec.filler) = true) :
+    Msg.illegal (Spec.vtype u) (Spec.valueText u (r.getD j Spec.filler)) ∈ Spec.msgsOf ext L := by
+  have hne : L.rows0 ≠ [] := by intro e; simp [e] at hr
+  have hcol := rawColumns_get L.rows0 L.names0.length j hne hjn
+  have hm : r.getD j Spec.filler ∈ Spec.columnCells L.rows0 j := by
+    simp only [Spec.columnCells, List.mem_map]
+    exact ⟨r, List.mem_of_getElem? hr, rfl⟩
+  have := illegalMsgs_names ext L.units _ j u _ _ hu hcol hm hi
+  simp only [Spec.msgsOf, List.mem_append]
+  right; exact this
+
 /-- a legal cell's value does not depend on the fixer at all; an illegal cell holds the replacement -/
 theorem legal_value_kept (ext : Ext) (cfg : FixCfg) (u : Str) (c : Cell) (v : Spec.Val)
     (h : Spec.legalValue ext u c = some v) : (Spec.legalValue ext u c).getD (Spec.replacement cfg u) = v := by
@@ -754,35 +800,20 @@ theorem filler_values (ext : Ext) (u : Str) :
 /-- candidate `sq` of `fix_duplicate_column_name` -/
 def cand (c : Str) (sq : Nat) : Str := c ++ "_fixed_".toList ++ pad3 sq
 
-def unpad (s : Str) : Nat := s.foldl (fun n c => 10 * n + (c.toNat - 48)) 0
+def unpad (s : Str) : Nat := Nat.ofDigitChars 10 s 0
 
-set_option maxRecDepth 100000 in
-theorem unpad_pad3_0 : ∀ n < 200, unpad (pad3 n) = n := by decide
-set_option maxRecDepth 100000 in
-theorem unpad_pad3_1 : ∀ n < 200, unpad (pad3 (n + 200)) = n + 200 := by decide
-set_option maxRecDepth 100000 in
-theorem unpad_pad3_2 : ∀ n < 200, unpad (pad3 (n + 400)) = n + 400 := by decide
-set_option maxRecDepth 100000 in
-theorem unpad_pad3_3 : ∀ n < 200, unpad (pad3 (n + 600)) = n + 600 := by decide
-set_option maxRecDepth 100000 in
-theorem unpad_pad3_4 : ∀ n < 200, unpad (pad3 (n + 800)) = n + 800 := by decide
+/-- `f"{sq:03}"` is one-to-one: reading the digits back gives `sq` -/
+theorem unpad_pad3 (n : Nat) : unpad (pad3 n) = n := by
+  unfold unpad pad3 natToStr
+  simp only [Nat.ofDigitChars_append, Nat.ofDigitChars_replicate_zero, Nat.mul_zero]
+  show Nat.ofDigitChars 10 (Nat.repr n).toList 0 = n
+  rw [Nat.toList_repr]
+  exact Nat.ofDigitChars_ten_toDigits
 
-/-- `f"{sq:03}"` is one-to-one on 0..999 -/
-theorem unpad_pad3 (n : Nat) (h : n < 1000) : unpad (pad3 n) = n := by
-  by_cases h0 : n < 200
-  · exact unpad_pad3_0 n h0
-  · by_cases h1 : n < 400
-    · have := unpad_pad3_1 (n - 200) (by omega); rwa [Nat.sub_add_cancel (by omega)] at this
-    · by_cases h2 : n < 600
-      · have := unpad_pad3_2 (n - 400) (by omega); rwa [Nat.sub_add_cancel (by omega)] at this
-      · by_cases h3 : n < 800
-        · have := unpad_pad3_3 (n - 600) (by omega); rwa [Nat.sub_add_cancel (by omega)] at this
-        · have := unpad_pad3_4 (n - 800) (by omega); rwa [Nat.sub_add_cancel (by omega)] at this
-
-theorem cand_inj (c : Str) (a b : Nat) (ha : a < 1000) (hb : b < 1000) (h : cand c a = cand c b) : a = b := by
+theorem cand_inj (c : Str) (a b : Nat) (h : cand c a = cand c b) : a = b := by
   unfold cand at h
   have := List.append_cancel_left h
-  rw [← unpad_pad3 a ha, ← unpad_pad3 b hb, this]
+  rw [← unpad_pad3 a, ← unpad_pad3 b, this]
 
 theorem freeName_spec (c : Str) (ex : List Str) (sq fuel : Nat) :
     freeName c ex sq fuel ∉ ex ∨ ∀ k, sq ≤ k → k < sq + fuel → cand c k ∈ ex := by
@@ -804,17 +835,15 @@ theorem freeName_spec (c : Str) (ex : List Str) (sq fuel : Nat) :
       intro hm
       exact h (List.contains_iff_mem.2 hm)
 
-theorem cand_pigeonhole (c : Str) (ex : List Str) (N : Nat) (hN : N ≤ 1000)
+theorem cand_pigeonhole (c : Str) (ex : List Str) (N : Nat)
     (h' : ∀ k, k < N → cand c k ∈ ex) : N ≤ ex.length := by
   have hnd : ((List.range N).map (cand c)).Nodup := by
     rw [List.nodup_iff_pairwise_ne, List.pairwise_map]
     have := @List.pairwise_lt_range N
     rw [List.pairwise_iff_getElem] at this ⊢
     intro i j hi hj hij e
-    have hi' : (List.range N)[i] < N := List.mem_range.1 (List.getElem_mem _)
-    have hj' : (List.range N)[j] < N := List.mem_range.1 (List.getElem_mem _)
     have := this i j hi hj hij
-    have := cand_inj c _ _ (by omega) (by omega) e
+    have := cand_inj c _ _ e
     omega
   have hsub : (List.range N).map (cand c) ⊆ ex := by
     intro x hx
@@ -823,27 +852,27 @@ theorem cand_pigeonhole (c : Str) (ex : List Str) (N : Nat) (hN : N ≤ 1000)
   have := hnd.length_le_of_subset hsub
   simpa using this
 
-/-- with fewer than 1000 names so far, `fix_duplicate_column_name` returns a name not among them -/
-theorem freeName_fresh (c : Str) (ex : List Str) (h : ex.length < 1000) : freeName c ex 0 1000 ∉ ex := by
-  rcases freeName_spec c ex 0 1000 with h' | h'
+/-- `fix_duplicate_column_name` always returns a name that is not among the names so far: the candidates are
+    pairwise different, so one of the first `len + 1` is free -/
+theorem freeName_fresh (c : Str) (ex : List Str) : freeName c ex 0 (ex.length + 1) ∉ ex := by
+  rcases freeName_spec c ex 0 (ex.length + 1) with h' | h'
   · exact h'
   · exfalso
-    have := cand_pigeonhole c ex 1000 (Nat.le_refl _) (fun k hk => h' k (Nat.zero_le _) (by omega))
+    have := cand_pigeonhole c ex (ex.length + 1) (fun k hk => h' k (Nat.zero_le _) (by omega))
     omega
 
-theorem renameFrom_nodup (seen ns : List Str) (hs : seen.Nodup) (hl : seen.length + ns.length ≤ 1000) :
-    (seen ++ renameFrom seen ns).Nodup := by
+theorem renameFrom_nodup (seen ns : List Str) (hs : seen.Nodup) : (seen ++ renameFrom seen ns).Nodup := by
   induction ns generalizing seen with
   | nil => simpa [renameFrom] using hs
   | cons n ns ih =>
     simp only [renameFrom]
-    have hfresh : (if seen.contains n then freeName n seen 0 1000 else n) ∉ seen := by
+    have hfresh : (if seen.contains n then freeName n seen 0 (seen.length + 1) else n) ∉ seen := by
       by_cases hc : seen.contains n = true
       · simp only [hc, if_true]
-        exact freeName_fresh n seen (by simp at hl; omega)
+        exact freeName_fresh n seen
       · simp only [hc]
         intro hm; exact hc (List.contains_iff_mem.2 hm)
-    have hs' : (seen ++ [if seen.contains n then freeName n seen 0 1000 else n]).Nodup := by
+    have hs' : (seen ++ [if seen.contains n then freeName n seen 0 (seen.length + 1) else n]).Nodup := by
       rw [List.nodup_append]
       refine ⟨hs, by simp, ?_⟩
       intro a ha b hb
@@ -852,13 +881,12 @@ theorem renameFrom_nodup (seen ns : List Str) (hs : seen.Nodup) (hl : seen.lengt
       rw [hb'] at e
       rw [e] at ha
       exact hfresh ha
-    have := ih _ hs' (by simp at hl ⊢; omega)
+    have := ih _ hs'
     simpa [List.append_assoc] using this
 
-/-- **names unique**: after `_fix_duplicate_column_names` no two columns have the same name (tables of at most
-    1000 columns — beyond that the code falls back to one literal name) -/
-theorem names_unique (names0 : List Str) (h : names0.length ≤ 1000) : (repairedNames names0).Nodup := by
-  have := renameFrom_nodup [] names0 (by simp) (by simpa using h)
+/-- **names unique**: after `_fix_duplicate_column_names` no two columns have the same name — for every header -/
+theorem names_unique (names0 : List Str) : (repairedNames names0).Nodup := by
+  have := renameFrom_nodup [] names0 (by simp)
   simpa [repairedNames] using this
 
 theorem renameFrom_kept (seen ns : List Str) (i : Nat) (n : Str) (hn : ns[i]? = some n) :
@@ -1194,14 +1222,14 @@ example :
           [.num ["1.5".toList, NaN, NaN], .onoff [true, false, false], .dt [NaT, NaT, NaT],
            .text ["x".toList, "NaN".toList, [] ]],
           2, 3,
-          [.dup "a".toList 1, .missingRow 1, .illegal "float".toList, .illegal "onoff".toList,
-           .illegal "datetime".toList]) := by decide
+          [.dup "a".toList 1, .missingRow 1, .illegal "float".toList "xx".toList,
+           .illegal "onoff".toList "maybe".toList, .illegal "datetime".toList "yesterday".toList]) := by decide
 
 /-- the strict read of the same layout fails; the strict read of a clean layout succeeds with nothing counted -/
 example : (finish exampleExt exLayout ⟨FixCfg.strict, 0, 0, []⟩).toOption.isNone = true := by decide
 
 example : Spec.errorsOf exLayout = 2 ∧ Spec.warningsOf exampleExt exLayout = 3 := by decide
 
-example : (repairedNames exLayout.names0).Nodup := names_unique _ (by decide)
+example : (repairedNames exLayout.names0).Nodup := names_unique _
 
 end Pdt.C13
